@@ -182,6 +182,12 @@ func runC04(c *Ctx) {
 			default:
 				j, tags = c04TimelineJournal(r)
 			}
+		}
+		// the accounts of every stream take minimal and odd shapes as well (a bare root account, digits, very deep, ...):
+		// the lifecycle and the tracked positions of an account never depend on the shape of its name
+		shaped := c04Reshape(r, j)
+		tags = append(tags, shaped...)
+		if stream == "disorder" {
 			tags = append(tags, "disorder:"+c04Disorder(r, j))
 			if c04Chronological(j) {
 				tags = append(tags, "file-chronological")
@@ -210,7 +216,14 @@ func runC04(c *Ctx) {
 				mut = t
 			}
 		}
-		c.Class(fmt.Sprintf("c04/%s/%s/%s/n%s", stream, verdict, mut, bucket(len(j.Dirs))))
+		shp := "plain"
+		if len(shaped) > 0 {
+			shp = "shaped"
+			if contains(shaped, "shape:bare-root-AL") {
+				shp = "bare-AL"
+			}
+		}
+		c.Class(fmt.Sprintf("c04/%s/%s/%s/n%s/%s", stream, verdict, mut, bucket(len(j.Dirs)), shp))
 		if i < 2 {
 			c.Sample(map[string]any{"journal": text, "impl": implStr, "detail": msg})
 		}
@@ -635,4 +648,180 @@ func c04Disorder(r *RNG, j *Journal) string {
 		}
 		return "directives-reversed"
 	}
+}
+
+// c04Accounts lists the account names of the journal in the order of their first appearance.
+func c04Accounts(j *Journal) []string {
+	var res []string
+	seen := map[string]bool{}
+	add := func(a string) {
+		if a != "" && !seen[a] {
+			seen[a] = true
+			res = append(res, a)
+		}
+	}
+	for _, d := range j.Dirs {
+		add(d.Account)
+		for _, b := range d.Balances {
+			add(b.Account)
+		}
+		if d.Accrual != nil {
+			add(d.Accrual.Account)
+		}
+		for _, b := range d.Bookings {
+			add(b.Credit)
+			add(b.Debit)
+		}
+	}
+	return res
+}
+
+// c04Reshape renames some or all accounts of the journal, consistently and injectively, to minimal and odd but valid
+// names of the SAME account type: the bare root account (`Assets`, `Liabilities`, `Equity`, `Income`, `Expenses` alone are
+// account names), segments of digits only, segments that are account type words, very deep names, non-ASCII letters and
+// digits, one very long segment, one-letter segments, the parent / a child / a string-prefix sibling of another account of
+// the journal, the leaf of another account under a different parent.  Whatever the journal does with an account (open,
+// book, assert, close, re-open, the invalid steps of the generators and the mutations) it now does with the renamed one;
+// dates, quantities and the order of the directives do not change, and the specification decides the verdict as before.
+// (Seeded change C04-g cached the asset/liability classification when an account is created below a root and built the
+// five root accounts by another path: bookings on the bare account `Assets` were not tracked.)  Three cases in five stay
+// as generated.  Returns the tags of the shapes used.
+func c04Reshape(r *RNG, j *Journal) []string {
+	if r.Intn(5) < 3 {
+		return nil
+	}
+	accs := c04Accounts(j)
+	if len(accs) == 0 {
+		return nil
+	}
+	all := r.Chance(1, 3)
+	must := r.Intn(len(accs)) // at least this one
+	taken := map[string]bool{}
+	for _, a := range accs {
+		taken[a] = true
+	}
+	short := []string{"a", "Z", "x", "I", "O", "l", "q", "B"}
+	digits := []string{"0", "1", "7", "00", "007", "2024", "12", "9999999999", "٣", "४२", "1a", "a1"}
+	uni := []string{"Ä", "é", "ß", "Ω", "Żółć", "日本", "東京", "가", "ñandú", "Ünï", "ǅ", "ª"}
+	rename := map[string]string{}
+	tagset := map[string]bool{}
+	for k, a := range accs {
+		if !all && k != must && !r.Chance(1, 2) {
+			continue
+		}
+		typ := strings.SplitN(a, ":", 2)[0]
+		if !contains(typeNames, typ) {
+			continue // not an account name the loader accepts (a mutation): left alone
+		}
+		var same []string // other accounts of the same type, by their current (possibly new) name
+		for _, o := range accs {
+			if o != a && strings.SplitN(o, ":", 2)[0] == typ {
+				if n, ok := rename[o]; ok {
+					o = n
+				}
+				same = append(same, o)
+			}
+		}
+		for try := 0; try < 4; try++ {
+			var n, shape string
+			switch x := r.Intn(16); {
+			case x < 4:
+				n, shape = typ, "bare-root"
+			case x < 6:
+				n, shape = typ, "digits"
+				for q := r.Range(1, 3); q > 0; q-- {
+					n += ":" + Pick(r, digits)
+				}
+			case x < 8:
+				n, shape = typ, "type-word-segment"
+				for q := r.Range(1, 3); q > 0; q-- {
+					n += ":" + Pick(r, []string{typ, Pick(r, typeNames), strings.ToLower(typ), "Assets", "Liabilities"})
+				}
+			case x < 10:
+				n, shape = typ, "very-deep"
+				for q := Pick(r, []int{6, 9, 16, 33, 64}) + r.Intn(3); q > 0; q-- {
+					n += ":" + Pick(r, [][]string{short, short, digits, uni})[r.Intn(8)]
+				}
+			case x < 11:
+				n, shape = typ, "unicode"
+				for q := r.Range(1, 3); q > 0; q-- {
+					n += ":" + Pick(r, uni)
+				}
+			case x < 12:
+				n, shape = typ+":"+strings.Repeat(Pick(r, short), Pick(r, []int{31, 64, 65, 120, 257})), "long-segment"
+			case x < 13:
+				n, shape = typ+":"+Pick(r, short), "one-letter"
+			default: // related to another account of the same type
+				if len(same) == 0 {
+					continue
+				}
+				o := Pick(r, same)
+				segs := strings.Split(o, ":")
+				switch r.Intn(4) {
+				case 0:
+					n, shape = o+":"+Pick(r, short), "child-of-other"
+				case 1:
+					n, shape = strings.Join(segs[:max(1, len(segs)-1)], ":"), "parent-of-other"
+				case 2:
+					if len(segs) < 2 {
+						continue // (a longer first segment is no account type)
+					}
+					n, shape = o+Pick(r, short), "prefix-sibling-of-other"
+				default:
+					n, shape = typ+":"+Pick(r, short)+":"+segs[len(segs)-1], "leaf-of-other"
+				}
+			}
+			if taken[n] {
+				continue
+			}
+			taken[n] = true
+			rename[a] = n
+			tagset["shape:"+shape] = true
+			if n == typ && (typ == "Assets" || typ == "Liabilities") {
+				tagset["shape:bare-root-AL"] = true
+			}
+			break
+		}
+	}
+	if len(rename) == 0 {
+		return nil
+	}
+	rn := func(a string) string {
+		if n, ok := rename[a]; ok {
+			return n
+		}
+		return a
+	}
+	// (directives duplicated by a mutation may share their slices: every slice is rebuilt, never edited in place)
+	for i := range j.Dirs {
+		d := &j.Dirs[i]
+		d.Account = rn(d.Account)
+		if d.Balances != nil {
+			bs := make([]JBal, len(d.Balances))
+			for k, b := range d.Balances {
+				b.Account = rn(b.Account)
+				bs[k] = b
+			}
+			d.Balances = bs
+		}
+		if d.Bookings != nil {
+			bs := make([]JBook, len(d.Bookings))
+			for k, b := range d.Bookings {
+				b.Credit, b.Debit = rn(b.Credit), rn(b.Debit)
+				bs[k] = b
+			}
+			d.Bookings = bs
+		}
+		if d.Accrual != nil {
+			ac := *d.Accrual
+			ac.Account = rn(ac.Account)
+			d.Accrual = &ac
+		}
+	}
+	tags := []string{"reshaped"}
+	for t := range tagset {
+		tags = append(tags, t)
+	}
+	sort.Strings(tags)
+	return tags
 }
